@@ -1084,7 +1084,8 @@ class Grammar(PGFile):
                 match = keyword_rec(term.recognizer.value, 0)
                 if match == term.recognizer.value:
                     term.recognizer = RegExRecognizer(
-                        rf"\b{match}\b", ignore_case=term.recognizer.ignore_case
+                        rf"\b{re.escape(match)}\b",
+                        ignore_case=term.recognizer.ignore_case,
                     )
                     term.keyword = True
 
